@@ -36,7 +36,7 @@ def plan(tier):
 def required(tier):
     cells = [f"cell:{a}{b}:{r}" for a in "><" for b in "><" for r in ("accepted", "rejected")]
     return ["post:path_exists", "post:extract_path", "cli_single", "cli_file", "cli_fasta",
-            "cli_gz", "reversal_pairs", "selflink_walk", "mixed_case_graphs", "cli_stdout", "path_file_without_final_newline"] + cells
+            "cli_gz", "reversal_pairs", "selflink_walk", "mixed_case_graphs", "cli_stdout", "path_file_without_final_newline", "path_list_through_fifo"] + cells
 
 
 # -- contracts --------------------------------------------------------------------------------
@@ -221,11 +221,34 @@ def run_case(ctx, rng, index, casedir):
     if unterminated:
         M.hit("path_file_without_final_newline")
     pf = os.path.join(casedir, "paths.txt")
-    with open(pf, "w", newline="") as f:
-        f.write(nl.join(plist) + ("" if unterminated else nl))
+    content = nl.join(plist) + ("" if unterminated else nl)
+    fifo_thread = None
+    if rng.random() < 0.06:
+        # the list of paths comes through a named pipe (process substitution, /dev/stdin): not a regular
+        # file, st_size 0, readable once
+        import threading
+        os.mkfifo(pf)
+
+        def feed():
+            with open(pf, "w", newline="") as f:
+                f.write(content)
+        fifo_thread = threading.Thread(target=feed, daemon=True)
+        fifo_thread.start()
+        M.hit("path_list_through_fifo")
+    else:
+        with open(pf, "w", newline="") as f:
+            f.write(content)
     out2 = os.path.join(casedir, "multi.txt")
     fasta2 = rng.random() < 0.5
     o = run_cli(["find_path", gpath, pf, "-o", out2] + (["-f"] if fasta2 else []))
+    if fifo_thread is not None:
+        # if the command never opened the pipe the writer still waits in open(): let it go
+        try:
+            fd = os.open(pf, os.O_RDONLY | os.O_NONBLOCK)
+            fifo_thread.join(timeout=5)
+            os.close(fd)
+        except OSError:
+            pass
     M.hit("cli_file")
     if fasta2 or fasta:
         M.hit("cli_fasta")
